@@ -700,6 +700,23 @@ class Interp:
         return {ast.Add: o_.add, ast.Sub: o_.sub, ast.Mult: o_.mul, ast.Div: o_.truediv, ast.FloorDiv: o_.floordiv, ast.Mod: o_.mod, ast.Pow: o_.pow}[type(op)](a, b)
 
     def callexpr(self, e, env):
+        if isinstance(e.func, ast.Attribute) and isinstance(e.func.value, ast.Name) and e.func.value.id == "bisect" and e.func.attr in ("bisect", "bisect_right", "bisect_left"):
+            # search of a CONCRETE sorted table for a symbolic value: decided comparison by comparison (each decision is a path split)
+            table, x = [self.ev(a, env) for a in e.args]
+            if not isinstance(table, (tuple, list)) or any(isinstance(t_, (SStr, RealV, IntV)) for t_ in table):
+                raise Unsupported("bisect on a symbolic table")
+            if not isinstance(x, (RealV, IntV)):
+                import bisect as _b
+                return getattr(_b, e.func.attr)(table, x)
+            xe = RealV.lift(x).e
+            idx = 0
+            for t_ in table:
+                c_ = (xe > rv(Fraction(t_))) if e.func.attr == "bisect_left" else (xe >= rv(Fraction(t_)))
+                if CTX.decide(c_):
+                    idx += 1
+                else:
+                    break
+            return idx
         if isinstance(e.func, ast.Attribute):
             obj = self.ev(e.func.value, env)
             args = [self.ev(a, env) for a in e.args]
